@@ -119,7 +119,27 @@ pub fn generate(seed: u64, tier: Tier) -> Doc {
     let mut big_budget = 2; // at most two large files per scenario keeps runs short
     for _ in 0..n {
         let depth = r.below(5) as usize;
-        let p = gen_path(&mut r, depth);
+        let mut p = gen_path(&mut r, depth);
+        if !paths.is_empty() && r.chance(1, 8) {
+            // a path that differs from an earlier one in letter case only (in one component, or
+            // throughout) is another file on this file system
+            let q = r.pick(&paths).clone();
+            let flipped: String = if r.chance(1, 2) {
+                q.chars().map(|c| if c.is_ascii_lowercase() { c.to_ascii_uppercase() } else { c.to_ascii_lowercase() }).collect()
+            } else {
+                let comps: Vec<&str> = q.split('/').collect();
+                let k = r.usize_below(comps.len());
+                comps
+                    .iter()
+                    .enumerate()
+                    .map(|(i, c)| if i == k { c.chars().map(|ch| if ch.is_ascii_lowercase() { ch.to_ascii_uppercase() } else { ch.to_ascii_lowercase() }).collect::<String>() } else { c.to_string() })
+                    .collect::<Vec<_>>()
+                    .join("/")
+            };
+            if flipped != q {
+                p = flipped;
+            }
+        }
         if !prefix_free(&paths, &p) {
             continue;
         }
